@@ -25,7 +25,37 @@ Inductive pval :=
 | PNull | PBool (b : bool) | PInt (v : Z) | PStr (s : list Z) | PBytes (s : list Z)
 | PArr (l : list pval) | PDict (l : list (list Z * pval)).
 
-(* visit: None = (nil, false).  One unit of fuel per call and per loop iteration. *)
+(* the loops "for i := 0; i < int(count); i++" of the array and map cases; [vis] is the recursive visit.
+   One unit of fuel per iteration. *)
+Fixpoint items (vis : list Z -> res (option (pval * list Z))) (g : nat) (k : Z) (bs : list Z) (acc : list pval)
+  : res (option (pval * list Z)) :=
+  if k <=? 0 then Ok (Some (PArr (rev acc), bs)) else
+  match g with
+  | O => Hang
+  | S g' =>
+    r <- vis bs ;;
+    match r with
+    | None => Ok None
+    | Some (v, bs') => items vis g' (k - 1) bs' (v :: acc)
+    end
+  end.
+
+Fixpoint entries (vis : list Z -> res (option (pval * list Z))) (g : nat) (k : Z) (bs : list Z) (acc : list (list Z * pval))
+  : res (option (pval * list Z)) :=
+  if k <=? 0 then Ok (Some (PDict (rev acc), bs)) else
+  match g with
+  | O => Hang
+  | S g' =>
+    '(key, next, ok) <- readLengthPrefixedSlice bs ;;
+    if negb ok then Ok None else
+    r <- vis next ;;
+    match r with
+    | None => Ok None
+    | Some (v, bs') => entries vis g' (k - 1) bs' ((key, v) :: acc)
+    end
+  end.
+
+(* visit: None = (nil, false).  One unit of fuel per call. *)
 Fixpoint visit (fuel : nat) (bs : list Z) : res (option (pval * list Z)) :=
   match fuel with
   | O => Hang
@@ -46,34 +76,10 @@ Fixpoint visit (fuel : nat) (bs : list Z) : res (option (pval * list Z)) :=
       if ok then Ok (Some (PBytes s, next)) else Ok None
     else if kind =? 5 then
       '(count, next, ok) <- readUint32 bs ;;
-      if negb ok then Ok None else
-      (fix items (g : nat) (k : Z) (bs : list Z) (acc : list pval) {struct g} : res (option (pval * list Z)) :=
-         if k <=? 0 then Ok (Some (PArr (rev acc), bs)) else
-         match g with
-         | O => Hang
-         | S g' =>
-           r <- visit f bs ;;
-           match r with
-           | None => Ok None
-           | Some (v, bs') => items g' (k - 1) bs' (v :: acc)
-           end
-         end) f count next []
+      if negb ok then Ok None else items (visit f) f count next []
     else if kind =? 6 then
       '(count, next, ok) <- readUint32 bs ;;
-      if negb ok then Ok None else
-      (fix entries (g : nat) (k : Z) (bs : list Z) (acc : list (list Z * pval)) {struct g} : res (option (pval * list Z)) :=
-         if k <=? 0 then Ok (Some (PDict (rev acc), bs)) else
-         match g with
-         | O => Hang
-         | S g' =>
-           '(key, next, ok) <- readLengthPrefixedSlice bs ;;
-           if negb ok then Ok None else
-           r <- visit f next ;;
-           match r with
-           | None => Ok None
-           | Some (v, bs') => entries g' (k - 1) bs' ((key, v) :: acc)
-           end
-         end) f count next []
+      if negb ok then Ok None else entries (visit f) f count next []
     else Crash                     (* panic("Invalid packet") *)
   end.
 
